@@ -380,6 +380,50 @@ func checkC16(c C16Case) *Violation {
 				return vio("user-chord-tones", "chord %d of the piece, %q, sounds %v above the root; its definition (parents first, then own attributes) gives %v%s", k, u, sortedInts(got), sortedInts(want), ctx)
 			}
 		}
+	case "shared-display":
+		// a user chord with a fresh long name takes over the display symbol of a built-in: the symbol now means the
+		// user chord, the built-in's long name still means the built-in - on the describe route and on the write route
+		d := Dict{ChordFiles: [][]UChord{{{Name: "JazzSeventh", Display: "7", Attrs: []string{"Perfect1", "Major3", "Perfect5", "Minor7", "Major9"}}}}}
+		files, args := d.filesAndArgs()
+		for _, tc := range []struct {
+			target string
+			want   []int
+		}{{"C_DominantSeventh", []int{0, 4, 7, 10}}, {"C_7", []int{0, 4, 7, 10, 14}}, {"C_JazzSeventh", []int{0, 4, 7, 10, 14}}, {"C_9", []int{0, 4, 7, 10, 14}}} {
+			res := Run{Argv: append([]string{"info", "chord", "describe", "-t", tc.target}, args...), Files: files}.Exec()
+			if v := cleanOutcome(res); v != nil {
+				return v
+			}
+			if res.Exit != 0 {
+				return vio("user-chord-refused", "info chord describe -t %s with a user chord sharing the display symbol 7: %s", tc.target, firstLines(res.Stderr, 2))
+			}
+			var doc map[string]any
+			if err := yaml.Unmarshal(res.Stdout, &doc); err != nil {
+				return vio("describe-output", "%v", err)
+			}
+			var got []int
+			var walk func(x any)
+			walk = func(x any) {
+				switch v := x.(type) {
+				case map[string]any:
+					if sv, ok := v["semitone"]; ok {
+						if n, ok := sv.(int); ok {
+							got = append(got, n)
+						}
+					}
+					for _, y := range v {
+						walk(y)
+					}
+				case []any:
+					for _, y := range v {
+						walk(y)
+					}
+				}
+			}
+			walk(doc)
+			if !eqInts(sortedInts(got), tc.want) {
+				return vio("describe-chord-tones", "info chord describe -t %s (JazzSeventh = 0-4-7-10-14 shares the display symbol 7) lists the sizes %v, expected %v", tc.target, sortedInts(got), tc.want)
+			}
+		}
 	case "override-root":
 		// the root of the built-in forest redefined by its long name, keeping its empty display symbol (allowed:
 		// "except major triad"): the last definition wins, and everything that extends it inherits the new notes
@@ -760,6 +804,11 @@ func TestC16(t *testing.T) {
 	if shardIndex() == 0 {
 		c := C16Case{Kind: "attrs"}
 		r.CaseBC(true, "builtin-attributes")
+		r.Check(t, checkC16(c), "c16", c)
+	}
+	if shardIndex() == 3 {
+		c := C16Case{Kind: "shared-display"}
+		r.CaseBC(true, "display-symbol-shared-with-a-built-in")
 		r.Check(t, checkC16(c), "c16", c)
 	}
 	if shardIndex() == 2 {
